@@ -4,6 +4,7 @@ package worker
 
 import (
 	"context"
+	"errors"
 
 	tea "github.com/charmbracelet/bubbletea"
 
@@ -54,4 +55,44 @@ func VerifC03_P_pool() {
 	_, err := pool.Run(func(StatusFunc) (int, error) { return 0, nil })
 	sym.Assert(err != nil, "C03.P-closed.run-after-shutdown-is-an-error")
 	sym.Reach("C03.P.pool")
+}
+
+// C05 at the pool: a failing task's error reaches exactly the caller that submitted it; the other
+// callers (queued behind it on the same worker, or running beside it) get their own success.
+func VerifC05_P_pool_failure_delivery() {
+	maxWorkers := 1 + sym.Choice("max_workers_minus_1", 2)
+	nTasks := 3
+	failing := sym.Choice("failing_task", nTasks)
+	ctx, cancel := context.WithCancel(context.Background())
+	defer cancel()
+	pool := NewTaskWorkerPool[int](console.GetLogger(ctx), maxWorkers, func(tea.Msg) {}, nTasks)
+	pool.StartWorkers(ctx)
+	results := make([]int, nTasks)
+	errs := make([]error, nTasks)
+	done := make(chan int, nTasks)
+	boom := errors.New("target failed")
+	for i := 0; i < nTasks; i++ {
+		i := i
+		go func() {
+			results[i], errs[i] = pool.Run(func(update StatusFunc) (int, error) {
+				sym.Yield()
+				if i == failing {
+					return 0, boom
+				}
+				return 100 + i, nil
+			})
+			done <- i
+		}()
+	}
+	for i := 0; i < nTasks; i++ {
+		<-done
+	}
+	for i := 0; i < nTasks; i++ {
+		if i == failing {
+			sym.Assert(errs[i] == boom, "C05.P.failure-reaches-the-caller-that-submitted-it")
+		} else {
+			sym.Assert(errs[i] == nil && results[i] == 100+i, "C05.P.other-callers-unaffected-by-the-failure")
+		}
+	}
+	sym.Reach("C05.P.pool")
 }
